@@ -1,17 +1,312 @@
 package main
 
-import "strings"
+import (
+	"bytes"
+	"fmt"
+	"go/ast"
+	"go/printer"
+	"go/token"
+	"sort"
+	"strings"
+)
 
-// facts: syntactic / synchronisation facts read off the AST (extended as the models need them)
+// facts: syntactic / synchronisation facts read off the AST.
+//   chan_sends / chan_recvs : (function, channel expression) for every send statement /
+//                             receive expression (select cases included)
+//   go_stmts                : (function, callee) for every go statement
+//   flow_<pkg>_<func>       : the ordered skeleton of a function body: calls (callee text,
+//                             prefixed "go " / "defer "), "return", "{" "}" around function
+//                             literals, "select{" "case" "}" around selects, "for{" "}" loops.
+//                             Calls into logging.* / fmt.* , builtins and conversions are
+//                             left out so that adding a log line is not a change.
 func facts(pkgs map[string]*pkgInfo) string {
 	var b strings.Builder
 	b.WriteString("(* GENERATED from the Go source by /verif/translator on every check run — do not edit. *)\n")
-	b.WriteString("From Coq Require Import List ZArith NArith Bool.\nImport ListNotations.\n\n")
-	b.WriteString("Inductive fact (A : Type) := Known (a : A) | Unrecognised.\nArguments Known {A} a.\nArguments Unrecognised {A}.\n\n")
-	for _, f := range factFns {
-		f(pkgs, &b)
+	b.WriteString("From Coq Require Import String List.\nImport ListNotations.\nLocal Open Scope string_scope.\n\n")
+	for _, pn := range []string{"client", "state"} {
+		pi := pkgs[pn]
+		if pi == nil {
+			continue
+		}
+		var names []string
+		for n := range pi.funcs {
+			if strings.HasPrefix(n, "Verif") || strings.Contains(n, ".Verif") {
+				continue
+			}
+			names = append(names, n)
+		}
+		sort.Strings(names)
+		var sends, recvs, gos []string
+		for _, n := range names {
+			fd := pi.funcs[n]
+			if fd.Body == nil {
+				continue
+			}
+			flow := skeleton(pi, fd, n, &sends, &recvs, &gos)
+			fmt.Fprintf(&b, "Definition flow_%s_%s : list string :=\n  [%s].\n", pn, coqIdent(n), strings.Join(flow, "; "))
+		}
+		fmt.Fprintf(&b, "\nDefinition chan_sends_%s : list (string * string) :=\n  [%s].\n", pn, strings.Join(sends, "; "))
+		fmt.Fprintf(&b, "Definition chan_recvs_%s : list (string * string) :=\n  [%s].\n", pn, strings.Join(recvs, "; "))
+		fmt.Fprintf(&b, "Definition go_stmts_%s : list (string * string) :=\n  [%s].\n\n", pn, strings.Join(gos, "; "))
+	}
+	// package-level variable initialisers (e.g. tagsReplacer, handler tables): literal digests
+	for _, pn := range []string{"client", "state"} {
+		pi := pkgs[pn]
+		if pi == nil {
+			continue
+		}
+		for _, f := range pi.pkg.Syntax {
+			for _, d := range f.Decls {
+				gd, ok := d.(*ast.GenDecl)
+				if !ok || gd.Tok != token.VAR {
+					continue
+				}
+				for _, sp := range gd.Specs {
+					vs := sp.(*ast.ValueSpec)
+					for i, nm := range vs.Names {
+						if i >= len(vs.Values) || nm.Name == "_" {
+							continue
+						}
+						var keys []string
+						ast.Inspect(vs.Values[i], func(n ast.Node) bool {
+							if e, ok := n.(ast.Expr); ok {
+								if tv, ok := pi.pkg.TypesInfo.Types[e]; ok && tv.Value != nil {
+									keys = append(keys, coqStr(tv.Value.ExactString()))
+									return false
+								}
+								if se, ok := e.(*ast.SelectorExpr); ok {
+									keys = append(keys, coqStr(exprText(pi, se)))
+									return false
+								}
+							}
+							return true
+						})
+						fmt.Fprintf(&b, "Definition var_%s_%s : list string :=\n  [%s].\n", pn, coqIdent(nm.Name), strings.Join(keys, "; "))
+					}
+				}
+			}
+		}
 	}
 	return b.String()
 }
 
-var factFns []func(map[string]*pkgInfo, *strings.Builder)
+func coqStr(s string) string {
+	var b strings.Builder
+	b.WriteByte('"')
+	for i := 0; i < len(s); i++ {
+		c := s[i]
+		switch {
+		case c == '"':
+			b.WriteString("\"\"")
+		case c < 32 || c > 126:
+			fmt.Fprintf(&b, "\\x%02x", c)
+		default:
+			b.WriteByte(c)
+		}
+	}
+	b.WriteByte('"')
+	return b.String()
+}
+
+func exprText(pi *pkgInfo, e ast.Expr) string {
+	var buf bytes.Buffer
+	printer.Fprint(&buf, pi.pkg.Fset, e)
+	return strings.Join(strings.Fields(buf.String()), " ")
+}
+
+var skipCallPrefixes = []string{"logging.", "fmt.", "runtime.", "strings.Join"}
+var builtins = map[string]bool{"len": true, "cap": true, "append": true, "make": true, "new": true, "copy": true, "delete": true, "string": true}
+
+func skeleton(pi *pkgInfo, fd *ast.FuncDecl, fname string, sends, recvs, gos *[]string) []string {
+	var out []string
+	info := pi.pkg.TypesInfo
+	emit := func(s string) { out = append(out, coqStr(s)) }
+	calleeText := func(c *ast.CallExpr) (string, bool) {
+		if tv, ok := info.Types[c.Fun]; ok && tv.IsType() {
+			return "", false // conversion
+		}
+		if _, ok := c.Fun.(*ast.FuncLit); ok {
+			return "func", true
+		}
+		t := exprText(pi, c.Fun)
+		if builtins[t] {
+			return "", false
+		}
+		for _, p := range skipCallPrefixes {
+			if strings.HasPrefix(t, p) {
+				return "", false
+			}
+		}
+		return t, true
+	}
+	var walk func(n ast.Node, prefix string)
+	walkList := func(l []ast.Stmt) {
+		for _, s := range l {
+			walk(s, "")
+		}
+	}
+	walk = func(n ast.Node, prefix string) {
+		switch x := n.(type) {
+		case nil:
+			return
+		case *ast.GoStmt:
+			if t, ok := calleeText(x.Call); ok {
+				*gos = append(*gos, fmt.Sprintf("(%s, %s)", coqStr(fname), coqStr(t)))
+			}
+			walk(x.Call, "go ")
+		case *ast.DeferStmt:
+			walk(x.Call, "defer ")
+		case *ast.CallExpr:
+			if t, ok := calleeText(x); ok {
+				emit(prefix + t)
+			}
+			if fl, ok := x.Fun.(*ast.FuncLit); ok {
+				emit("{")
+				walkList(fl.Body.List)
+				emit("}")
+			} else {
+				walk(x.Fun, "")
+			}
+			for _, a := range x.Args {
+				walk(a, "")
+			}
+		case *ast.FuncLit:
+			emit("{")
+			walkList(x.Body.List)
+			emit("}")
+		case *ast.ReturnStmt:
+			for _, r := range x.Results {
+				walk(r, "")
+			}
+			emit("return")
+		case *ast.SendStmt:
+			ch := exprText(pi, x.Chan)
+			*sends = append(*sends, fmt.Sprintf("(%s, %s)", coqStr(fname), coqStr(ch)))
+			walk(x.Value, "")
+			emit("send " + ch)
+		case *ast.UnaryExpr:
+			if x.Op == token.ARROW {
+				ch := exprText(pi, x.X)
+				*recvs = append(*recvs, fmt.Sprintf("(%s, %s)", coqStr(fname), coqStr(ch)))
+				walk(x.X, "")
+				emit("recv " + ch)
+				return
+			}
+			walk(x.X, "")
+		case *ast.SelectStmt:
+			emit("select{")
+			for _, c := range x.Body.List {
+				cc := c.(*ast.CommClause)
+				if cc.Comm == nil {
+					emit("default")
+				} else {
+					emit("case")
+					walk(cc.Comm, "")
+				}
+				walkList(cc.Body)
+			}
+			emit("}")
+		case *ast.ForStmt:
+			emit("for{")
+			walk(x.Init, "")
+			if x.Cond != nil {
+				walk(x.Cond, "")
+			}
+			walk(x.Post, "")
+			walkList(x.Body.List)
+			emit("}")
+		case *ast.RangeStmt:
+			emit("for{")
+			walk(x.X, "")
+			walkList(x.Body.List)
+			emit("}")
+		case *ast.IfStmt:
+			walk(x.Init, "")
+			walk(x.Cond, "")
+			emit("if{")
+			walkList(x.Body.List)
+			emit("}")
+			if x.Else != nil {
+				emit("else{")
+				walk(x.Else, "")
+				emit("}")
+			}
+		case *ast.BlockStmt:
+			walkList(x.List)
+		case *ast.ExprStmt:
+			walk(x.X, "")
+		case *ast.AssignStmt:
+			for _, r := range x.Rhs {
+				walk(r, "")
+			}
+			for _, l := range x.Lhs {
+				// assignments to connection fields matter for the lifecycle model
+				t := exprText(pi, l)
+				if strings.HasPrefix(t, "conn.") && !strings.Contains(t, "[") {
+					emit("set " + t)
+				}
+			}
+		case *ast.DeclStmt:
+			if gd, ok := x.Decl.(*ast.GenDecl); ok {
+				for _, sp := range gd.Specs {
+					if vs, ok := sp.(*ast.ValueSpec); ok {
+						for _, v := range vs.Values {
+							walk(v, "")
+						}
+					}
+				}
+			}
+		case *ast.SwitchStmt:
+			walk(x.Init, "")
+			if x.Tag != nil {
+				walk(x.Tag, "")
+			}
+			emit("switch{")
+			for _, c := range x.Body.List {
+				cc := c.(*ast.CaseClause)
+				emit("case")
+				walkList(cc.Body)
+			}
+			emit("}")
+		case *ast.TypeSwitchStmt:
+			emit("switch{")
+			for _, c := range x.Body.List {
+				cc := c.(*ast.CaseClause)
+				emit("case")
+				walkList(cc.Body)
+			}
+			emit("}")
+		case *ast.LabeledStmt:
+			walk(x.Stmt, "")
+		case *ast.IncDecStmt, *ast.BranchStmt, *ast.EmptyStmt:
+		case *ast.BinaryExpr:
+			walk(x.X, "")
+			walk(x.Y, "")
+		case *ast.ParenExpr:
+			walk(x.X, "")
+		case *ast.SelectorExpr:
+			walk(x.X, "")
+		case *ast.IndexExpr:
+			walk(x.X, "")
+			walk(x.Index, "")
+		case *ast.SliceExpr:
+			walk(x.X, "")
+			walk(x.Low, "")
+			walk(x.High, "")
+		case *ast.StarExpr:
+			walk(x.X, "")
+		case *ast.CompositeLit:
+			for _, e := range x.Elts {
+				walk(e, "")
+			}
+		case *ast.KeyValueExpr:
+			walk(x.Value, "")
+		case *ast.TypeAssertExpr:
+			walk(x.X, "")
+		case *ast.Ident, *ast.BasicLit:
+		default:
+		}
+	}
+	walkList(fd.Body.List)
+	return out
+}
